@@ -115,7 +115,8 @@ class Report:
         cov['bounds'] = self.bounds
         cov['stubs'] = sorted(self.stubs)
         cov['traces_validated_against_impl'] = cov.get('traces_validated_against_impl', self.validated)
-        cov['obligation_list'] = [dict(name=o['name'], status=o['status'], s=o['seconds'], mandatory=o['mandatory'])
+        cov['obligation_list'] = [dict(dict(name=o['name'], status=o['status'], s=o['seconds'], mandatory=o['mandatory']),
+                                       **({'detail': str(o['detail'])[:300]} if o.get('detail') else {}))
                                   for o in self.obls][:400]
         cov['known_findings_reported'] = [k for k, _ in self.known_hits]
         cov['inconclusive'] = [o['name'] for o in self.obls if o['status'] == 'inconclusive'][:50]
